@@ -1,9 +1,188 @@
-/- Driver operations for C10 (stub: to be filled by the property's model). -/
+/- Driver operations for C10 (low-rank packed preconditioner).  Mathlib-free.
+
+Scalars: `"ty": "rat"` (strings "p/q", exact) or `"ty": "f64"` (hex bit patterns of IEEE doubles).
+Matrices cross as flat row-major lists.
+
+  {"op":"precond_dim","rank":int,"dim":nat}
+      -> {"precond_dim":n,"should_compress":bool}
+  {"op":"pack","ty":..,"d":d,"r":r,"eigvecs":[d*r],"eigvals":[r],"inv":[r],"const":x,"tail":x,"has_zeros":bool}
+      -> {"P":[d*(r+2)]}            (`_fd_low_rank_pack`)        | {"err":"inadmissible"}
+  {"op":"unpack","ty":..,"d":d,"r":r,"P":[d*(r+2)]}
+      -> {"eigvecs":..,"eigvals":..,"inv":..,"const":..,"tail":..,"has_zeros":bool}   (`_fd_low_rank_unpack`)
+  {"op":"lr_pack","ty":..,"d":d,"r":r,"eigvecs":[d*r],"inv":[r],"const":x}  -> {"P":[..]}   (`_low_rank_pack`)
+  {"op":"lr_unpack","ty":..,"d":d,"r":r,"P":[..]} -> {"eigvecs":..,"inv":..,"const":..,"has_zeros":bool}
+  {"op":"denote","ty":..,"d":d,"r":r,"P":[..]} -> {"M":[d*d],"has_zeros":bool}
+  {"op":"apply_block","ty":..,"shape":[..],"g":[prod shape],
+        "ops":[{"kind":"roll"}|{"kind":"dense","d":d,"P":[d*d]}|{"kind":"packed","r":r,"P":[d*(r+2)]}, ...]}
+      -> {"packed":[..],"denoted":[..]}    (`_precondition_block` as written / with every packed
+                                            preconditioner replaced by the dense matrix it denotes)
+  {"op":"regularized_input","ty":..,"d":d,"A":[d*d],"ps":nat|null,"ridge_eps":x,"max_ev":x,"tol":x}
+      -> {"ridge":x,"M":[d*d]}
+  {"op":"low_rank_root","ty":..,"d":d,"r":r,"neg":bool,"ps":nat|null,"ridge":x,"p":nat,"e":[d],"U":[d*d]}
+      -> {"P":[d*(r+2)]}            (`_low_rank_root` after `eigh`; "rat" supports p = 1 only)
+-/
 import PrecondVerif.Kit.Proto
+import PrecondVerif.Model.LowRank
 
 namespace PrecondVerif.Drv.C10
-open Lean PrecondVerif.Proto
+open Lean PrecondVerif.Proto PrecondVerif.LowRank
 
-def ops : List Op := []
+instance : Zero Float := ⟨0.0⟩
+instance : One Float := ⟨1.0⟩
+instance : NatCast Float := ⟨Float.ofNat⟩
+
+structure Codec (α : Type) where
+  parse : Json → R α
+  out : α → Json
+  /-- `x ↦ x ^ (-1/p)` (none: not available for this scalar type and exponent) -/
+  pw : Nat → Option (α → α)
+
+def ratC : Codec Rat := ⟨asRat, ratToJson, fun p => if p = 1 then some fun x => 1 / x else none⟩
+def f64C : Codec Float := ⟨asFloat, floatToJson, fun p => some fun x => Float.pow x (-1.0 / Float.ofNat p)⟩
+
+variable {α : Type}
+
+def getArr (c : Codec α) (j : Json) (k : String) : R (Array α) := do
+  pure (← asListOf c.parse (← field j k)).toArray
+
+def needLen (what : String) (a : Array α) (n : Nat) : R Unit :=
+  if a.size = n then pure () else .error s!"{what}: expected {n} entries, got {a.size}"
+
+def matOf [Zero α] (a : Array α) (m n : Nat) : Mat α m n := fun i j => a.getD (i.val * n + j.val) 0
+def vecOf [Zero α] (a : Array α) (n : Nat) : Vec α n := fun i => a.getD i.val 0
+
+def matJson (c : Codec α) {m n : Nat} (M : Mat α m n) : Json :=
+  listToJson c.out ((List.finRange m).flatMap fun i => (List.finRange n).map fun j => M i j)
+def vecJson (c : Codec α) {n : Nat} (v : Vec α n) : Json :=
+  listToJson c.out ((List.finRange n).map v)
+
+def getOptNat (j : Json) (k : String) : R (Option Nat) :=
+  match fieldD j k Json.null with
+  | .null => pure none
+  | v => do pure (some (← asNat v))
+
+section ops
+variable [Add α] [Sub α] [Mul α] [Div α] [Zero α] [One α] [BEq α] [Max α] [NatCast α]
+
+def packOp (c : Codec α) (lr : Bool) (j : Json) : R Json := do
+  let d ← getNat j "d"
+  let r ← getNat j "r"
+  -- `assert rank > 0`, `assert _precond_dim(rank, d) == rank + 2 < d`
+  if r = 0 ∨ ¬ r + 2 < d then return obj [("err", Json.str "inadmissible")]
+  let V ← getArr c j "eigvecs"; needLen "eigvecs" V (d * r)
+  let ie ← getArr c j "inv"; needLen "inv" ie r
+  let cst ← c.parse (← field j "const")
+  if lr then
+    return obj [("P", matJson c (lowRankPack (matOf V d r) (vecOf ie r) cst))]
+  let ev ← getArr c j "eigvals"; needLen "eigvals" ev r
+  let tl ← c.parse (← field j "tail")
+  let hz ← getBool j "has_zeros"
+  let F : Fields α d r := { eigvecs := matOf V d r, eigvals := vecOf ev r, invEigvals := vecOf ie r,
+                            const := cst, tail := tl, hasZeros := hz }
+  return obj [("P", matJson c (fdPack F))]
+
+def unpackOp (c : Codec α) (lr : Bool) (j : Json) : R Json := do
+  let d ← getNat j "d"
+  let r ← getNat j "r"
+  if h : r + 2 < d then
+    if r = 0 then return obj [("err", Json.str "inadmissible")]
+    let P ← getArr c j "P"; needLen "P" P (d * (r + 2))
+    let F := fdUnpack h (matOf P d (r + 2))
+    if lr then
+      let L := lowRankUnpack h (matOf P d (r + 2))
+      return obj [("eigvecs", matJson c L.eigvecs), ("inv", vecJson c L.invEigvals), ("const", c.out L.const),
+                  ("has_zeros", toJson L.hasZeros)]
+    return obj [("eigvecs", matJson c F.eigvecs), ("eigvals", vecJson c F.eigvals), ("inv", vecJson c F.invEigvals),
+                ("const", c.out F.const), ("tail", c.out F.tail), ("has_zeros", toJson F.hasZeros)]
+  else return obj [("err", Json.str "inadmissible")]
+
+def denoteOp (c : Codec α) (j : Json) : R Json := do
+  let d ← getNat j "d"
+  let r ← getNat j "r"
+  if h : r + 2 < d then
+    let P ← getArr c j "P"; needLen "P" P (d * (r + 2))
+    let L := lowRankUnpack h (matOf P d (r + 2))
+    return obj [("M", matJson c (denoteP h (matOf P d (r + 2)))), ("has_zeros", toJson L.hasZeros)]
+  else return obj [("err", Json.str "inadmissible")]
+
+def parseAxisOp (c : Codec α) (dim : Nat) (j : Json) : R (AxisOp α) := do
+  let kind ← getStr j "kind"
+  if kind == "roll" then return .roll
+  let P ← getArr c j "P"
+  if kind == "dense" then
+    needLen "dense P" P (dim * dim)
+    return .dense fun i k => P.getD (i * dim + k) 0
+  if kind == "packed" then
+    let r ← getNat j "r"
+    needLen "packed P" P (dim * (r + 2))
+    if ¬ r + 2 < dim then throw "packed preconditioner with r + 2 >= dim (the code asserts)"
+    return .packed r fun i k => P.getD (i * (r + 2) + k) 0
+  throw s!"unknown axis op {kind}"
+
+def applyBlockOp (c : Codec α) (j : Json) : R Json := do
+  let shape ← getNats j "shape"
+  let g ← getArr c j "g"
+  let n := shape.foldl (· * ·) 1
+  needLen "g" g n
+  let opsJ ← asList (← field j "ops")
+  if opsJ.length ≠ shape.length then throw "one op per axis expected"
+  let ops ← (opsJ.zip shape).mapM fun (o, d) => parseAxisOp c d o
+  let a := preconditionBlock ops shape g
+  let b := preconditionBlockDenoted ops shape g
+  return obj [("packed", listToJson c.out a.toList), ("denoted", listToJson c.out b.toList)]
+
+def regularizedOp (c : Codec α) (j : Json) : R Json := do
+  let d ← getNat j "d"
+  let A ← getArr c j "A"; needLen "A" A (d * d)
+  let ps ← getOptNat j "ps"
+  let ridgeEps ← c.parse (← field j "ridge_eps")
+  let maxEv ← c.parse (← field j "max_ev")
+  let tol ← c.parse (← field j "tol")
+  let ridge := ridgeOf ridgeEps maxEv tol
+  return obj [("ridge", c.out ridge), ("M", matJson c (regularizedInput (matOf A d d) ps ridge))]
+
+def lowRankRootOp (c : Codec α) (j : Json) : R Json := do
+  let d ← getNat j "d"
+  let r ← getNat j "r"
+  let neg ← getBool j "neg"
+  let ps ← getOptNat j "ps"
+  let p ← getNat j "p"
+  let ridge ← c.parse (← field j "ridge")
+  let e ← getArr c j "e"; needLen "e" e d
+  let U ← getArr c j "U"; needLen "U" U (d * d)
+  match c.pw p with
+  | none => return obj [("err", Json.str "no exact power for this exponent")]
+  | some pw =>
+    if h : r + 2 < d then
+      if r = 0 then return obj [("err", Json.str "inadmissible")]
+      return obj [("P", matJson c (lowRankRoot h pw neg ps ridge (vecOf e d) (matOf U d d)))]
+    else return obj [("err", Json.str "inadmissible")]
+
+def typed (f : {α : Type} → [Add α] → [Sub α] → [Mul α] → [Div α] → [Zero α] → [One α] → [BEq α] → [Max α] →
+    [NatCast α] → Codec α → Json → R Json) (j : Json) : R Json := do
+  let ty ← getStr j "ty"
+  if ty == "rat" then f ratC j
+  else if ty == "f64" then f f64C j
+  else throw s!"unknown ty {ty}"
+
+end ops
+
+def precondDimOp (j : Json) : R Json := do
+  let rank ← getInt j "rank"
+  let dim ← getNat j "dim"
+  return obj [("precond_dim", toJson (Shapes.precondDim rank.natAbs dim)),
+              ("should_compress", toJson (Shapes.shouldCompress rank.natAbs dim))]
+
+def ops : List Op := [
+  ("precond_dim", precondDimOp),
+  ("pack", typed fun c => packOp c false),
+  ("lr_pack", typed fun c => packOp c true),
+  ("unpack", typed fun c => unpackOp c false),
+  ("lr_unpack", typed fun c => unpackOp c true),
+  ("denote", typed fun c => denoteOp c),
+  ("apply_block", typed fun c => applyBlockOp c),
+  ("regularized_input", typed fun c => regularizedOp c),
+  ("low_rank_root", typed fun c => lowRankRootOp c)
+]
 
 end PrecondVerif.Drv.C10
